@@ -166,4 +166,8 @@ def run(chk):
     chk.floor("table-rows", 18)
     chk.floor("countdown-paths", 14)
     chk.sample({"pulse_lengths": {"pilot": PILOT, "sync": [S1, S2], "bit0": ZERO, "bit1": ONE, "pause": PAUSE}, "rows": rows})
+    # block framing / window invariant of the TAP reader (shared rule, rules/tapeinv.py)
+    from . import tapeinv
+    chk.rule("T-INV", "Tap window invariant: inductive over every writer and every exit; asserts and bounds implied; headers read only at block ends")
+    tapeinv.run(chk, prog)
     return chk.finish(EXPL)
